@@ -827,6 +827,19 @@ def run(ctx):
                 unreproduced = entry   # reported only if no failure that stands on its own turns up
     if n_fail_reported == 0 and unreproduced is not None:
         ctx.fail(*unreproduced)
+    # the EMPTY history: a string parsed as the very first thing a process does gets the same tree as under any other history. Each of these short
+    # histories is executed in a new interpreter (nothing was parsed there before); in it every parse is compared with the raw parser as usual.
+    if True:
+        firsts = [[["parse", "ahb", "Muss [1] ∧ ([2] ∨ [3]) Soll [4] ⊻ [5]"], ["parse", "ahb", "Muss [1] ∧ ([2] ∨ [3]) Soll [4] ⊻ [5]"]],
+                  [["parse", "cond", "[1] ∧ ([2] ∨ [3]) ⊻ [4]"], ["parse", "ahb", "X [1] ∨ [2]"], ["parse", "cond", "[1] ∧ ([2] ∨ [3]) ⊻ [4]"]],
+                  [["parse", "ahb", "muss[1]u[2] kann[3]o[4]"], ["parse", "ahb", "M [5] ⊻ [6]"], ["parse", "cond", "[1]u[2]"]],
+                  [["parse", "ahb", rng.choice(pools["ahb"])], ["parse", "cond", rng.choice(pools["cond"])], ["parse", "ahb", rng.choice(pools["ahb"])]]]
+        for h in firsts:
+            if reproduces_in_fresh_process(h):
+                key = "history|" + hashlib.sha1(json.dumps(h, ensure_ascii=False).encode()).hexdigest()[:12]
+                ctx.fail(key, {"history": h, "found_in_history": "first parses of a new process", "length_before_shrinking": len(h)},
+                         "the tree the raw parser returns for the string", "another tree (see ./check C11 --replay)",
+                         "oracle: the returned tree differs from the uncached _parser.parse(s) (the first parses of a new interpreter: the empty history)")
     n_failing_hist = sum(1 for r in runs if r.failures)
     n_failing_parses = sum(len(r.failures) for r in runs)
     im.clear()
